@@ -98,7 +98,9 @@ Section Proposer.
     (forall v, nthN vs i = Some v -> pview e (g v) = pview e v) ->
     map (pview e) (updN vs i g) = map (pview e) vs.
   Proof.
-    unfold updN, nthN. generalize (N.to_nat i) as k. clear i.
+    rewrite updN_eq. intros H. assert (H' : forall v, nth_error vs (N.to_nat i) = Some v -> pview e (g v) = pview e v)
+      by (intros v Hv; apply H; rewrite nthN_eq; exact Hv).
+    clear H. revert H'. generalize (N.to_nat i) as k. clear i.
     induction vs as [|v vs IH]; intros [|k] H; cbn [upd_nat map]; try reflexivity.
     - rewrite (H v eq_refl). reflexivity.
     - f_equal. apply IH. intros w Hw. apply H. exact Hw.
